@@ -559,7 +559,7 @@ pub struct VerifStats {
 impl Allocator {
   /// Report to the harness that the first allocation after a collection is about to happen
   fn verif_quiescent(&mut self) {
-    if crate::verif::take_quiescent_pending() {
+    if crate::verif::take_quiescent_pending() || crate::verif::quiescent_sample_due() {
       crate::verif::quiescent(self);
     }
   }
@@ -575,6 +575,7 @@ impl Allocator {
     if let Some(threshold) = crate::verif::take_initial_threshold() {
       self.next_gc = threshold;
     }
+    crate::verif::threshold_watch(self.bytes_allocated, self.next_gc);
 
     let (mode, times) = match crate::verif::gc_decision(self.bytes_allocated) {
       GcDecision::Native => return,
